@@ -308,6 +308,68 @@ def b_iter(I, a, k):
     return v
 
 
+class CycleV:
+    def __init__(self, items):
+        self.items = items
+        self.pos = 0
+
+
+def it_cycle(I, a, k):
+    items = Mo.concrete_iter(I, a[0])
+    if items is None:
+        raise Unsupported('itertools.cycle over a symbolic sequence')
+    return CycleV(list(items))
+
+
+def b_next(I, a, k):
+    c = a[0]
+    if isinstance(c, CycleV):
+        if not c.items:
+            raise PyExc('StopIteration')
+        v = c.items[c.pos % len(c.items)]
+        c.pos += 1
+        return v
+    raise Unsupported('next(%r)' % (c,))
+
+
+def _draw(I, name, kind):
+    """one value from the global random generators: a fresh symbol (or a fresh function of the comprehension index)"""
+    st = I.st
+    st.ghost['rand_draws'] = st.ghost.get('rand_draws', 0) + 1
+    idx = getattr(I, 'comp_index', None)
+    nm = st.fresh_name(name)
+    if idx is not None:
+        f = z3.Function(nm, z3.IntSort(), z3.RealSort() if kind == 'real' else z3.IntSort())
+        return SV(f(idx), kind)
+    return SV(z3.Real(nm) if kind == 'real' else z3.Int(nm), kind)
+
+
+def rnd_random(I, a, k):
+    v = _draw(I, 'rnd_random', 'real')
+    I.st.assume(z3.And(v.t >= 0, v.t < 1))
+    return v
+
+
+def rnd_randint(I, a, k):
+    v = _draw(I, 'rnd_randint', 'int')
+    I.st.assume(z3.And(v.t >= zint(a[0]), v.t <= zint(a[1])))
+    return v
+
+
+def rnd_uniform(I, a, k):
+    v = _draw(I, 'rnd_uniform', 'real')
+    lo, hi = zreal(a[0]), zreal(a[1])
+    I.st.assume(z3.And(v.t >= z3.If(lo <= hi, lo, hi), v.t <= z3.If(lo <= hi, hi, lo)))
+    return v
+
+
+def rnd_randrange(I, a, k):
+    v = _draw(I, 'rnd_randrange', 'int')
+    lo, hi = (0, a[0]) if len(a) == 1 else (a[0], a[1])
+    I.st.assume(z3.And(v.t >= zint(lo), v.t < zint(hi)))
+    return v
+
+
 def f_reduce(I, a, k):
     items = Mo.concrete_iter(I, a[1])
     if items is None:
@@ -427,6 +489,7 @@ def builtins(I):
     reg('getattr', b_getattr)
     reg('setattr', b_setattr)
     reg('iter', b_iter)
+    reg('next', b_next)
     reg('enumerate', b_enumerate)
     reg('zip', b_zip)
     reg('reversed', b_reversed)
@@ -675,6 +738,11 @@ def lib_lookup(I, dotted):
         'numpy.add.reduce': Builtin('numpy.add.reduce', np_add_reduce),
         'numpy.float64': TypeTag('float'),
         'functools.reduce': Builtin('functools.reduce', f_reduce),
+        'itertools.cycle': Builtin('itertools.cycle', it_cycle),
+        'random.random': Builtin('random.random', rnd_random),
+        'random.randint': Builtin('random.randint', rnd_randint),
+        'random.uniform': Builtin('random.uniform', rnd_uniform),
+        'random.randrange': Builtin('random.randrange', rnd_randrange),
         'math.sqrt': Builtin('math.sqrt', lambda I_, a, k: Mo.power(I_, a[0], 0.5)),
         'collections.abc.Callable': TypeTag('Callable'),
         'collections.Callable': TypeTag('Callable'),
